@@ -314,6 +314,12 @@ Clear == \/ Dead("clear")
          \/ /\ ~failed /\ last' = "clear" /\ res' = Ok /\ UNCHANGED <<failed, why>> /\ created' = <<>> /\ ms' = FreshScopes
 \* the end of the test: the verdict is the first failure, or else what checkExpectations says now (MockSupportPlugin);
 \* then everything is cleared for the next test
+\* number of failures the test records: the first failure ends a test at once; the end-of-test check reports each
+\* deviation it meets once (every scope whose call in progress cannot be completed, then possibly the order)
+FailingFinishes == Cardinality({ s \in Scopes : ms[s].live /\ Finish(ms[s]).cats # {} })
+EndCountOK(r, v) == IF r = "ok" THEN v = 0
+                    ELSE IF failed \/ FailingFinishes = 0 THEN v = 1
+                    ELSE v \in 1..(FailingFinishes + 1)
 End == /\ last' = "end" /\ created' = <<>> /\ ms' = FreshScopes /\ failed' = FALSE /\ why' = ""
        /\ IF failed THEN res' = [k |-> why]
           ELSE LET f == FinishAll(ms, Visit, 1)
